@@ -42,6 +42,12 @@ CLAIMED = {
          "well-formed pairs, through exact contracts on days_nanos_to_*, nanos_to_sub*_nanos and since_i32/i64/i128 plus lemma_trunc_since; "
          "duration_between is the absolute difference for all three types. Antisymmetry and inverse-of-add follow from the closed form.",
     note=TB + "Duration accessors/constructors and Duration + Duration trusted; std::cmp::min/max on &DateTime modelled over the verified cmp.", ref="5 C06"),
+ 'C07': dict(
+    text="Verus proves months_between == mb(date_of(a), na, date_of(b), nb) for all i32 day pairs and all nanos, where mb is month-index difference "
+         "corrected by one toward zero when the day/time-of-day has not been reached; years_between == that count / 12 truncated toward zero; and "
+         "three lemmas over mb that are the property itself: lemma_mb_bracket (a >= b, day(b) <= 28 => shifted(b,n) <= a < shifted(b,n+1) with "
+         "the same month arithmetic as C05), lemma_mb_antisymmetric, lemma_mb_monotone; lemma_key_is_instant_order ties the comparison key to instants.",
+    note=TB + "the function contract is a functional restatement of the code; the property is carried by the lemmas over it (both are checked each run).", ref="5 C07"),
  'C08': dict(
     text="Verus proves for the whole Time API: constructors accept exactly values inside the day and produce nanoseconds < 86400e9; every "
          "add_/sub_ (all u32 counts), Time+Time, Time-Time, Time+/-Duration, From<DateTime> return (t +/- amount) mod 24 h with the offset "
